@@ -14,8 +14,8 @@ from ..model import calls_in, get_arg, is_self_attr, method_name
 from ..report import AnalysisError, norm_src
 from . import _partition
 
-MIN_SITES_ALGOS = 17
-MIN_EXPAND_SITES = 6
+MIN_SITES_ALGOS = 12
+MIN_EXPAND_SITES = 4
 
 
 def algo_classes(model):
